@@ -77,9 +77,12 @@ Theorem C03_bc6_tables_structure :
   length spec_bc6_two_fields = 10%nat /\ forallb mode_ok spec_bc6_two_fields = true /\
   map fst spec_bc6_two_fields = [0; 1; 2; 6; 10; 14; 18; 22; 26; 30]%N.
 Proof. exact bc6_tables_structure. Qed.
-Theorem C03_bc6_reserved_zero : forall ft p2 signed b, (Z.of_N (le128 b) mod 4 = 3)%Z -> (4 <= (Z.of_N (le128 b) / 4) mod 8)%Z ->
-  bc6_decode_with ft p2 signed b = zero_block.
+Theorem C03_bc6_reserved_zero : forall ix ft p2 signed b, (Z.of_N (le128 b) mod 4 = 3)%Z -> (4 <= (Z.of_N (le128 b) / 4) mod 8)%Z ->
+  bc6_decode_with ix ft p2 signed b = zero_block.
 Proof. exact bc6_reserved_zero. Qed.
+(* the BC6H decoder as implemented equals the one over the specification tables with sequential index reads *)
+Theorem C03_bc6_model_eq_spec : forall signed blk, bc6_model signed blk = bc6_spec signed blk.
+Proof. exact bc6_model_eq_spec. Qed.
 Theorem C03_bc6_interp_nearest : forall a b w, (0 <= w <= 64)%Z ->
   let v := Z.shiftr (a * (64 - w) + b * w + 32) 6 in (64 * v <= a * (64 - w) + b * w + 32 < 64 * v + 64)%Z.
 Proof. exact bc6_interp_nearest. Qed.
@@ -98,5 +101,5 @@ Proof. vm_compute. reflexivity. Qed.
 Definition C03_all := (C03_bc1_palette, C03_bc1_pixels, C03_bc23_always_four_colour, C03_bc2_alpha_exact, C03_bc4u_palette,
   C03_bc4s_palette, C03_bc4_pixels, C03_widen_exact, C03_bc7_model_eq_spec, C03_bc7_tables, C03_bc7_weights,
   C03_bc7_interp_nearest, C03_bc7_interp_no_wrap, C03_bc7_reserved, C03_bc7_mode_prefix, tables_structure,
-  C03_bc6_tables, C03_bc6_tables_structure, C03_bc6_reserved_zero, C03_bc6_interp_nearest, C03_bc6_unquantize_ends).
+  C03_bc6_tables, C03_bc6_tables_structure, C03_bc6_reserved_zero, C03_bc6_model_eq_spec, C03_bc6_interp_nearest, C03_bc6_unquantize_ends).
 Redirect "props/C03.assumptions" Print Assumptions C03_all.
